@@ -679,7 +679,13 @@ func g8Dispatch(r *Repo, rep *Report) {
 				}
 			}
 			// stay inside this loop: its done-block is an exit, not a way round an enclosing loop
-			reach := g.reachable([]*cfg.Block{match}, func(x *cfg.Block) bool { return x.Kind == cfg.KindRangeDone && x.Stmt == ast.Stmt(rs) })
+			// (a block that belongs to a statement outside the loop has left it too: a labelled break, a return)
+			reach := g.reachable([]*cfg.Block{match}, func(x *cfg.Block) bool {
+				if x.Kind == cfg.KindRangeDone && x.Stmt == ast.Stmt(rs) {
+					return true
+				}
+				return x.Stmt != nil && (x.Stmt.Pos() < rs.Pos() || x.Stmt.Pos() >= rs.End())
+			})
 			if head != nil && !reach[head] {
 				rep.pass("G8")
 				rep.sample(map[string]string{"rule": "G8 first-match dispatch", "function": b.Name, "loop": r.pos(rs.Pos())})
